@@ -176,6 +176,13 @@ def _failed_create_leftover(fn, rm):
         if len([1 for path, n2, _r, _k in clib.stores(fn) if path == v]) != 1:
             continue
         ok2, _w = cbool.equivalent(cbool.conj([pc, ("atom", v)]), ("false",))
+        if not ok2 or v not in cbool.atoms(pc):
+            # the path condition may spell the named condition out (cbool.truth looks through locals defined once by a boolean
+            # expression): `V` true is then the truth of its definition
+            vdef = [rhs_ for path_, n_, rhs_, k_ in clib.stores(fn) if path_ == v and rhs_ is not None]
+            ok2 = False
+            if len(vdef) == 1:
+                ok2, _w = cbool.equivalent(cbool.conj([pc, cbool.truth(vdef[0])]), ("false",))
         if not ok2:
             continue
         # the probe is taken before the create on every path
@@ -517,7 +524,7 @@ def r5_readers_ignore_tmp(repo=None):
     args = fnode.right.elts if isinstance(fnode.right, ast.Tuple) else [fnode.right]
     bounded = {}
     for i, a in enumerate(args):
-        if isinstance(a, ast.BinOp) and isinstance(a.op, ast.Mod) and pyfront.const(a.right) == 1000:
+        if isinstance(a, ast.BinOp) and isinstance(a.op, ast.Mod) and pyfront.int_const(a.right, m) == 1000:
             bounded[i] = 3
     rdr, _ = rx.printf_to_regex(fmt, bounded)
     sp, pats, globs = grammar_space(repo, {"READER_RF": rdr})
